@@ -288,7 +288,8 @@ static void debug_with_chunksize(uint8_t *buf, unsigned int opcode_pos,
  */
 static int check_len_or_resize(assemblyline_t al, int buf_pos) {
 
-  if (buf_pos + BUFFER_TOLERANCE > al->buffer_len) {
+  // (long: buf_pos may be within BUFFER_TOLERANCE of INT_MAX)
+  if ((long)buf_pos + BUFFER_TOLERANCE > al->buffer_len) {
     FAIL_IF_VAR(al->external, "exceeded memory buffer: al->buffer_len = %d\n",
                 al->buffer_len)
 #ifdef __linux__
